@@ -152,7 +152,7 @@ func genC07(t *rapid.T) *sim.GenSpec {
 
 func nextC07(g *sim.G, i int) *sim.Op {
 	if i > 0 && g.Pct("restart", 3) {
-		return &sim.Op{Kind: "restart", Label: "restart"}
+		return restartOp(g)
 	}
 	switch k := g.Int("op", 0, 19); {
 	case k <= 4:
